@@ -37,7 +37,7 @@ THEOREMS = [P + t for t in (
     "row_sum_rect_generated",
     "square_is_region_integral", "rectangle_is_region_integral",
     "triangle_is_region_integral_at_zero", "triangle_is_region_integral",
-    "triangle_is_region_integral_matsubara",
+    "triangle_is_region_integral_matsubara", "quadrature_variable",
     "corr_conj", "corr_conj_functional", "eta_conj", "corr_thermal_is_documented", "coth_x",
     "guard_branch_limit", "guard_branch_as_written", "guard_branch_difference",
     "guard_branch_error", "guard_branch_imaginary_time", "zero_temperature_limit",
@@ -347,14 +347,18 @@ def oracle_late(stream):
 # --- scale covariance and the memo tie ------------------------------------------------------
 # A change of the time unit by s (cutoff/s, T/s, times*s) leaves every cell unchanged and
 # multiplies C by 1/s^2.  Measured on the unchanged tree: hard cutoff invariant to 3e-14 for
-# s = 1e-6, 1e-9, 1e-12; exponential/gaussian to 1e-11 for cutoffs in [4e-3, 4e3] (beyond that
-# the unchanged code silently loses the (cutoff, inf) tail, see not_shown).
+# s = 1e-6, 1e-9, 1e-12.  For the exponential/gaussian cutoffs this needs the frequency quadrature
+# to be done in x = w/cutoff (then the cells agree to 1e-14 for s = 1e-9 .. 1e6); with the
+# quadrature in w itself the (cutoff, inf) tail is silently lost outside cutoffs ~[4e-3, 4e3]
+# (40-100 % at time units 1e-6 and 1e6).  correlation() itself carries scipy's default absolute
+# tolerance, so C*s^2 is compared up to 4*epsabs*s^2.
 SCALE_POINTS = [
     # alpha, zeta, wc, cutoff type, T/wc, dt*wc, [time units]
     (0.3, 1.0, 4.0, "hard", 0.0, 0.3712345678912, [1e-6, 1e-9]),
     (0.7, 0.5, 4.0, "hard", 0.8, 0.1498765432198, [1e-6, 1e-9]),
-    (0.3, 1.0, 4.0, "exponential", 0.0, 0.3712345678912, [1e-3, 1e3]),
-    (0.5, 2.0, 4.0, "gaussian", 0.5, 0.2123456789123, [1e-3]),
+    (0.3, 1.0, 4.0, "exponential", 0.0, 0.3712345678912, [1e-6, 1e-3, 1e3, 1e6]),
+    (0.5, 2.0, 4.0, "gaussian", 0.5, 0.2123456789123, [1e-6, 1e-3, 1e3, 1e6]),
+    (0.4, 3.0, 4.0, "exponential", 1.5, 0.2, [1e-6, 1e6]),
 ]
 SCALE_CELLS = [("upper-triangle", 0.0, None), ("square", 1.0, None), ("square", 3.0, None),
                ("rectangle", 2.0, 4.5), ("upper-triangle", 2.0, None)]
@@ -380,11 +384,15 @@ def oracle_scale(stream):
             key = "scale covariance (time unit %g): %s cutoff" % (s_, ct)
             worst = None
             for (sh, k, k2), v, b, tm in zip(SCALE_CELLS, cells, base[0], base[1]):
+                if s_ > 1.0 and sh == "upper-triangle" and k != 0:
+                    # the offset triangle contains delta * int_0^time_1 correlation(), which
+                    # carries scipy's absolute tolerance (not scale covariant for small cutoffs)
+                    continue
                 if abs(v - b) > 1e-9 * tm + 1e-9 * abs(b):
                     worst = {"shape": sh, "time_1/dt": k, "time_2/dt": k2,
                              "unit 1": [b.real, b.imag], "unit %g" % s_: [v.real, v.imag]}
                     break
-            if worst is None and abs(corr - base[2]) > 1e-9 * abs(base[2]):
+            if worst is None and abs(corr - base[2]) > 1e-9 * abs(base[2]) + 4 * EPSABS * s_ * s_:
                 worst = {"quantity": "correlation(1.3 dt) * unit^2", "unit 1": [base[2].real, base[2].imag],
                          "unit %g" % s_: [corr.real, corr.imag]}
             if worst is not None:
@@ -395,6 +403,21 @@ def oracle_scale(stream):
                                      "time_2*s must return the same cell value as s = 1 (tolerance 1e-9 "
                                      "of the eta terms; the unchanged code meets 3e-14)"})
             yield key, worst
+        if t_over == 0.0 and ct == "exponential":
+            # the T = 0 closed form in every time unit
+            for s_ in [1.0] + list(units):
+                w_ = wc / s_
+                tau = 1.3 * dtw / wc * s_
+                with stream("scale"):
+                    c_ = complex(PowerLawSD(alpha, zeta, w_, ct, 0.0).correlation(tau))
+                cf = complex(closed_form_T0_exp(alpha, zeta, w_, tau))
+                key = "T=0 closed form (time unit %g): exponential cutoff" % s_
+                yield key, (None if abs(c_ - cf) <= 1e-6 * abs(cf) + 4 * EPSABS else {
+                    "class": "PowerLawSD", "alpha": alpha, "zeta": zeta, "cutoff": w_, "cutoff_type": ct,
+                    "temperature": 0.0, "tau": tau, "correlation(tau)": [c_.real, c_.imag],
+                    "closed_form": [cf.real, cf.imag],
+                    "how": "PowerLawSD(alpha, zeta, cutoff, 'exponential', 0).correlation(tau) vs "
+                           "2 alpha cutoff^(1-zeta) Gamma(zeta+1) (1/cutoff + i tau)^-(zeta+1)"})
 
 
 def oracle_memo(obj, taus, matsubara=False):
@@ -605,9 +628,10 @@ def logged_shape_call(obj, bc, shape, delta, t1, t2, matsubara):
             cis.append((float(a), float(b), complex(v)))
         elif depth[0] == 1:
             # closure built by eta_function itself: which tau does it integrate for?
-            fv = getattr(integrand, "__code__", None)
-            if fv is not None and "tau" in fv.co_freevars and integrand.__closure__:
-                seen_tau.append(integrand.__closure__[fv.co_freevars.index("tau")].cell_contents)
+            inner = _inner_integrand(integrand)
+            fv = getattr(inner, "__code__", None)
+            if fv is not None and "tau" in fv.co_freevars and inner.__closure__:
+                seen_tau.append(inner.__closure__[fv.co_freevars.index("tau")].cell_contents)
         return v
     obj.eta_function = eta_logged
     bc._complex_integral = ci_logged
@@ -644,7 +668,27 @@ def capture_closures(obj, bc, tau, matsubara):
         f_eta = got[0]
     finally:
         bc._complex_integral = orig
-    return f_corr, f_eta
+    return _unscale(obj, f_corr), _unscale(obj, f_eta)
+
+
+def _inner_integrand(f):
+    """the closure `integrand` behind what is handed to the quadrature (itself, or the
+    `integrand` captured by `scaled_integrand`)"""
+    code = getattr(f, "__code__", None)
+    if code is not None and f.__closure__ and "integrand" in code.co_freevars:
+        return f.__closure__[code.co_freevars.index("integrand")].cell_contents
+    return f
+
+
+def _unscale(obj, f):
+    g = _inner_integrand(f)
+    if g is not f:
+        # Generated.BathShapes.*_scaledIntegrand: f(x) = cutoff * integrand(cutoff * x)
+        for x in (0.37, 2.5):
+            a, b = complex(f(x)), complex(obj.cutoff * g(obj.cutoff * x))
+            if a != b:
+                raise fw.Infra("scaled_integrand(x) != cutoff * integrand(cutoff * x) at x=%r" % x)
+    return g
 
 
 def correspondence(res, tier, rng):
@@ -684,7 +728,7 @@ def correspondence(res, tier, rng):
     # ---- (g) scale covariance, memo tie -----------------------------------------------------
     for key, bad in oracle_scale(wlog):
         res.case(key, True)
-        res.count("scale:" + key.split(":")[1].strip())
+        res.count(("scale:" if key.startswith("scale") else "closed-form:") + key.split(":")[1].strip())
         if bad is not None:
             res.disagree(key, bad)
     from oqupy.bath_correlations import PowerLawSD as _P
@@ -1076,6 +1120,12 @@ def replay_case(res, payload):
     """re-judge one stored failing input (corpus/C12/*.json, --replay) on the real code"""
     fi = payload.get("failing_input", payload)
     key = payload.get("key", "")
+    if key.startswith("scale covariance") or key.startswith("T=0 closed form"):
+        for k, bad in oracle_scale(WarningLog()):
+            if bad is not None and k == key:
+                res.fail(k, bad)
+                return True
+        return False
     if key.startswith("late-time"):
         again = False
         for k, bad in oracle_late(WarningLog()):
@@ -1125,8 +1175,8 @@ def run(tier, seed, replay):
         "with the library's DEFAULT epsrel/subdiv_limit vs the same call with epsrel=1e-10, "
         "subdiv_limit=4000 and the T=0 closed forms (1e-8), oqupy.config values vs the "
         "regenerated constants; IntegrationWarnings counted per phase; (g) scale covariance (time "
-        "units 1e-6, 1e-9 hard cutoff; 1e-3, 1e3 exponential/gaussian: same cells to 1e-9 of the "
-        "terms), memoised eta_function(tau) == un-memoised / keyword evaluation bit for bit, the "
+        "units 1e-6, 1e-9 hard cutoff; 1e-6, 1e-3, 1e3, 1e6 exponential/gaussian: same cells to "
+        "1e-9 of the terms) and the T=0 exponential closed form in each time unit, memoised eta_function(tau) == un-memoised / keyword evaluation bit for bit, the "
         "tau seen by each integrand closure == the requested tau; offset upper-triangles in "
         "imaginary time vs integration of the Matsubara correlation.  Distinct = distinct "
         "protocol line / oracle call; non-trivial = a shape call that used >= 2 eta values, any "
@@ -1152,12 +1202,12 @@ def run(tier, seed, replay):
         "already lose all relative accuracy (QUADPACK reports failure) for the exponential cutoff "
         "at cutoff*tau >= 100-200 (20 % at 200, factor 500 at 400; up to 5 % of C(0) in absolute "
         "terms) and for the gaussian cutoff at cutoff*tau >= 800",
-        "cutoff frequencies outside about [4e-3, 4e3] (in the user's units) for the exponential "
-        "and gaussian cutoffs: on the unchanged tree the (cutoff, inf) part of the frequency "
-        "integral is silently lost there (QAGI on the unscaled variable / default epsabs): "
-        "6e-5..2e-3 relative at cutoff 4e4, 40-100 % at cutoff 4e6 and 4e-6, in correlation() and "
-        "every cell alike (self-consistent, so only scale covariance and the closed form see it); "
-        "the hard cutoff is scale invariant to 3e-14 down to time units 1e-12",
+        "correlation() for very small cutoffs / couplings: scipy's default epsabs=1.49e-8 is an "
+        "absolute tolerance on C ~ alpha*cutoff^2, so at cutoff 4e-6 (time unit 1e6) C is only "
+        "accurate to 5e-5..1e-2 relative (all cutoff types; the cells, being dimensionless, are "
+        "not affected, except the upper-triangle at time_1 != 0, which integrates correlation(): "
+        "4e-8 relative at time unit 1e3, 1e-4 at 1e6); comparisons of C carry 4*epsabs and the "
+        "offset triangle is left out of the scale family for time units > 1",
         "the Gamma-function closed form of C(tau) at T=0 (exponential cutoff) is used only as a "
         "search oracle, not proved",
         "differentiation under the omega-integral: that the omega-integral of the eta kernel is "
